@@ -41,6 +41,14 @@ def check(ck):
     from . import helpers as H
     ck.rule('R15.11', 'deep_merge and hierarchy_depth, with which declarations and initial states are combined, keep their recursion skeleton')
     H.deep_merge_shape(ck, 'R15.11')
+    from . import c06, c16
+    ck.shared('R15.12', 'a variable is built where its port is wired and '
+              'from the schema the process has: only a port that the '
+              'topology omits gets the default path (an empty path is a '
+              'wiring, not an omission), and get_schema merges the '
+              'overrides the process holds - for a parallel process the '
+              'ones held by the child, read through the property',
+              c06.r06_1, c16.r16_7)
     H.hierarchy_depth_shape(ck, 'R15.11')
 
 
